@@ -49,6 +49,11 @@ fn spec_renew(me: Id) -> Option<Id> {
 /// Post-conditions of "the instance learned its identity is dead".
 pub fn check_death(pre: &Snap, post: &Snap, f: &F, rt: &LogRt) {
     let me = pre.identity;
+    if pre.conn == ConnectionState::Undead && post.identity == me {
+        // an instance that already is defunct may ignore being told again
+        vassert!(post.conn == ConnectionState::Undead, "c10: never carries on as active under a dead identity");
+        return;
+    }
     match spec_renew(me) {
         Some(new) => {
             vassert!(post.identity == new, "c10: switches to the renewed identity that wins against the old one");
@@ -59,6 +64,7 @@ pub fn check_death(pre: &Snap, post: &Snap, f: &F, rt: &LogRt) {
                 vassert!(f.codec.log.contains(me, 0, State::Down), "c10: the old identity is gossiped as Down");
             }
             vassert!(post.token != pre.token, "c13: identity change starts a new timer epoch");
+            vassert!(post.probe.direct.is_none() && post.probe.indirect.is_empty(), "c13: a renewed identity starts with no probe round in flight");
         }
         None => {
             vassert!(post.identity == me, "c10: without a winning renewal the identity is kept");
@@ -113,7 +119,7 @@ fn a_apply1_k<S: Src>(s: &mut S, k: usize) {
     let mut cx = Ctx::quiet();
     cx.new_addrs = 1;
     cx.may_die = dies;
-    cx.must_die = dies;
+    cx.must_die = dies && pre.conn != ConnectionState::Undead;
     cx.may_change_identity = dies;
     cx.may_bump = refutes;
     post_common(&pre, &post, &f, &rt, cx);
